@@ -130,6 +130,7 @@ class Ctx:
     def guarded(self, rule, fn, *a, **kw):
         """run one rule body; an AnchorLost anywhere inside fails that rule closed"""
         try:
+            A.CURRENT_RULE[0] = rule.id
             fn(rule, *a, **kw)
         except A.AnchorLost as e:
             rule.lost(e.what)
